@@ -1,9 +1,11 @@
 // Engine `silencer` (C02): one real silence.Silences + silence.Silencer under
-// virtual time.  Histories mix Set / edit / Expire / Merge (late, duplicated,
+// virtual time.  Histories mix Set / edit (compatible, and every minimal
+// variation of the matcher sets) / Expire / Merge (late, duplicated,
 // out-of-order versions, revivals of expired silences) / GC / alert GC (PostGC)
 // / snapshot reload; after every operation Mutes is asked for (most of) a
 // panel of label sets — so that cache entries of different ages coexist — and
-// the state is dumped.
+// the state is dumped.  Some Mutes calls are *interleaved*: store operations
+// run between the steps of one call (silx.WithInjection).
 package silencer
 
 import (
@@ -29,6 +31,7 @@ type gen struct {
 	ids    []string
 	setsOf map[string][][]silx.Matcher
 	nm     int
+	panel  []string
 }
 
 func (g *gen) learn(l []silx.Mesh) {
@@ -38,6 +41,30 @@ func (g *gen) learn(l []silx.Mesh) {
 			g.ids = append(g.ids, m.ID)
 		}
 		g.pool = append(g.pool, m)
+	}
+}
+
+func (g *gen) learnBC(tok string) {
+	for _, msg := range hx.Split(tok, "/") {
+		g.learn(silx.ParseMeshes(msg))
+	}
+}
+
+// the panel grows (up to a cap) by label sets on both sides of what was generated
+func (g *gen) addPanel(lss []map[string]string, n int) {
+	for _, ls := range lss {
+		if n == 0 || len(g.panel) >= 16 {
+			return
+		}
+		tok := "L" + silx.LsStr(ls)
+		dup := false
+		for _, p := range g.panel {
+			dup = dup || p == tok
+		}
+		if !dup {
+			g.panel = append(g.panel, tok)
+			n--
+		}
 	}
 }
 
@@ -98,6 +125,138 @@ func (g *gen) version() silx.Mesh {
 	}
 }
 
+// catalog entry, preferably one that matches ls (nil: any)
+func (g *gen) catalogFor(ls map[string]string) [][]silx.Matcher {
+	if ls != nil && g.r.IntN(4) > 0 {
+		var ok [][][]silx.Matcher
+		for _, c := range silx.Catalog {
+			if m, _ := silx.MatchSets(c, ls); m {
+				ok = append(ok, c)
+			}
+		}
+		if len(ok) > 0 {
+			return hx.Pick(g.r, ok)
+		}
+	}
+	return hx.Pick(g.r, silx.Catalog)
+}
+
+// store operations: (line, index of the broadcast field in the observation or -1)
+
+func (g *gen) opCreate(ls map[string]string) (string, int) {
+	r := g.r
+	start := silx.I64(g.now + int64(r.IntN(4)-1)*grid)
+	if r.IntN(4) == 0 {
+		start = "-"
+	}
+	end := silx.I64(g.now + int64(r.IntN(6))*grid)
+	sets := g.catalogFor(ls)
+	g.addPanel(silx.BothSides(r, sets), 2) // label sets on both sides of one of its matchers
+	return silx.SetLine("set", 0, g.now, "-", start, end, silx.Comment(r), sets, false), 2
+}
+
+func (g *gen) opEdit() (string, int) {
+	r := g.r
+	if len(g.ids) == 0 {
+		return "", -1
+	}
+	sid := hx.Pick(r, g.ids)
+	sets := g.setsOf[sid]
+	switch x := r.IntN(10); {
+	case x < 4:
+		// minimal variation of the stored matcher sets: never updatable in place
+		v, kind := silx.VaryAny(r, sets)
+		if kind != "" {
+			d := silx.Discriminators(sets, v)
+			r.Shuffle(len(d), func(i, j int) { d[i], d[j] = d[j], d[i] })
+			g.addPanel(d, 2)
+			g.addPanel(silx.BothSides(r, v), 2)
+			sets = v
+		}
+	case x < 5:
+		sets = hx.Pick(r, silx.Catalog)
+	}
+	start := g.now + int64(r.IntN(3)-1)*grid
+	for _, m := range g.stored() {
+		if m.ID == sid && r.IntN(3) > 0 {
+			start = m.Start
+		}
+	}
+	end := g.now + int64(r.IntN(6)-1)*grid
+	return silx.SetLine("set", 0, g.now, sid, silx.I64(start), silx.I64(end), silx.Comment(r), sets, false), 2
+}
+
+func (g *gen) opExpire() (string, int) {
+	if len(g.ids) == 0 {
+		return "", -1
+	}
+	return fmt.Sprintf("expire 0 %d %s", g.now, hx.Pick(g.r, g.ids)), 1
+}
+
+func (g *gen) opMerge() (string, int) {
+	n := 1 + g.r.IntN(3)
+	var b []silx.Mesh
+	for range n {
+		m := g.version()
+		g.learn([]silx.Mesh{m})
+		b = append(b, m)
+	}
+	ov := "0"
+	if len(g.w.Encode(b)) > 700 {
+		ov = "1"
+	}
+	return fmt.Sprintf("merge 0 %d %s %s", g.now, ov, silx.MeshesStr(b)), -1
+}
+
+// an interleaved Mutes: 1-2 store operations at q1 / e1 / q2 / e2 / w
+func (g *gen) imutesLine(p string) string {
+	r := g.r
+	ls := map[string]string{}
+	for k, v := range silx.ParseLs(strings.TrimPrefix(p, "L")) {
+		ls[string(k)] = string(v)
+	}
+	line := fmt.Sprintf("imutes 0 %d %s", g.now, p)
+	n := 1 + r.IntN(2)
+	for range n {
+		var op string
+		switch x := r.IntN(10); {
+		case x < 4:
+			op, _ = g.opCreate(ls)
+		case x < 5:
+			op, _ = g.opEdit()
+		case x < 7:
+			op, _ = g.opExpire()
+		case x < 9:
+			op, _ = g.opMerge()
+		default:
+			op = fmt.Sprintf("gc 0 %d", g.now)
+		}
+		if op == "" {
+			op, _ = g.opCreate(ls)
+		}
+		pt := hx.Pick(r, []string{"q1", "q1", "q1", "q2", "e1", "e2", "w"})
+		line += " " + pt + "~" + strings.ReplaceAll(op, " ", "~")
+	}
+	return line
+}
+
+// broadcasts of the operations that ran inside an interleaved Mutes
+func (g *gen) learnInjected(obs string) {
+	f := strings.Fields(obs)
+	for _, tok := range f[min(2, len(f)):] {
+		p := strings.Split(tok, "~")
+		if len(p) < 3 {
+			continue
+		}
+		switch {
+		case len(p) == 6: // pt res id bcs ver dump  (set)
+			g.learnBC(p[3])
+		case len(p) == 5 && (p[1] == "ok" || p[1] == "notfound"): // pt res bcs ver dump  (expire)
+			g.learnBC(p[2])
+		}
+	}
+}
+
 func runCase(t *testing.T, tr *hx.Trace, id int, r *rand.Rand, script []string) {
 	synctest.Test(t, func(t *testing.T) {
 		var header string
@@ -116,80 +275,46 @@ func runCase(t *testing.T, tr *hx.Trace, id int, r *rand.Rand, script []string) 
 			}
 			return
 		}
-		g := &gen{r: r, w: w, ret: retention, setsOf: map[string][][]silx.Matcher{}}
+		g := &gen{r: r, w: w, ret: retention, setsOf: map[string][][]silx.Matcher{}, panel: silx.AllPanel()}
 		do := func(line string) string {
 			obs := w.Exec(line)
 			tr.Linef("%s -> %s", line, obs)
 			return obs
 		}
 		local := func(line string, bcField int) {
+			if line == "" {
+				return
+			}
 			obs := strings.Fields(do(line))
-			if len(obs) > bcField {
-				for _, msg := range hx.Split(obs[bcField], "/") {
-					g.learn(silx.ParseMeshes(msg))
-				}
+			if bcField >= 0 && len(obs) > bcField {
+				g.learnBC(obs[bcField])
 			}
 		}
-		panel := silx.AllPanel()
 		nops := 8 + r.IntN(14)
 		for range nops {
 			if r.IntN(4) > 0 {
 				g.now += int64(r.IntN(3)) * grid
 			}
 			switch x := r.IntN(20); {
-			case x < 3: // create
-				start := silx.I64(g.now + int64(r.IntN(4)-1)*grid)
-				if r.IntN(4) == 0 {
-					start = "-"
-				}
-				end := silx.I64(g.now + int64(r.IntN(6))*grid)
-				local(silx.SetLine("set", 0, g.now, "-", start, end, silx.Comment(r), hx.Pick(r, silx.Catalog), false), 2)
-			case x < 6: // edit
-				if len(g.ids) == 0 {
-					continue
-				}
-				sid := hx.Pick(r, g.ids)
-				sets := g.setsOf[sid]
-				if r.IntN(5) == 0 {
-					sets = hx.Pick(r, silx.Catalog)
-				}
-				start := g.now + int64(r.IntN(3)-1)*grid
-				for _, m := range g.stored() {
-					if m.ID == sid && r.IntN(3) > 0 {
-						start = m.Start
-					}
-				}
-				end := g.now + int64(r.IntN(6)-1)*grid
-				local(silx.SetLine("set", 0, g.now, sid, silx.I64(start), silx.I64(end), silx.Comment(r), sets, false), 2)
-			case x < 8: // expire
-				if len(g.ids) == 0 {
-					continue
-				}
-				local(fmt.Sprintf("expire 0 %d %s", g.now, hx.Pick(r, g.ids)), 1)
-			case x < 14: // merge
-				n := 1 + r.IntN(3)
-				var b []silx.Mesh
-				for range n {
-					m := g.version()
-					g.learn([]silx.Mesh{m})
-					b = append(b, m)
-				}
-				ov := "0"
-				if len(w.Encode(b)) > 700 {
-					ov = "1"
-				}
-				do(fmt.Sprintf("merge 0 %d %s %s", g.now, ov, silx.MeshesStr(b)))
+			case x < 3:
+				local(g.opCreate(nil))
+			case x < 6:
+				local(g.opEdit())
+			case x < 8:
+				local(g.opExpire())
+			case x < 14:
+				local(g.opMerge())
 			case x < 16:
 				do(fmt.Sprintf("gc 0 %d", g.now))
 			case x < 18: // alert GC evicts cache entries
 				var l []string
-				for _, p := range panel {
+				for _, p := range g.panel {
 					if r.IntN(3) == 0 {
 						l = append(l, p)
 					}
 				}
 				if len(l) == 0 {
-					l = []string{hx.Pick(r, panel)}
+					l = []string{hx.Pick(r, g.panel)}
 				}
 				do(fmt.Sprintf("postgc 0 %s", strings.Join(l, ";")))
 			case x < 19:
@@ -197,17 +322,27 @@ func runCase(t *testing.T, tr *hx.Trace, id int, r *rand.Rand, script []string) 
 			default:
 				do(fmt.Sprintf("query 0 %d all %s %s", g.now, hx.Pick(r, []string{"-", "a", "ap", "e"}), silx.PanelTok(r)))
 			}
-			// the mute verdicts, for most of the panel (entries skipped keep an older cache version)
-			for _, p := range panel {
-				if r.IntN(3) > 0 {
+			// the mute verdicts, for most of the panel (entries skipped keep an older cache version);
+			// now and then with store operations interleaved into the call
+			for _, p := range g.panel {
+				switch x := r.IntN(12); {
+				case x < 4:
+				case x < 5:
+					g.learnInjected(do(g.imutesLine(p)))
+				default:
 					do(fmt.Sprintf("mutes 0 %d %s", g.now, p))
 				}
 			}
+		}
+		// every label set once more, so that what an interleaved call left behind is used
+		for _, p := range g.panel {
+			do(fmt.Sprintf("mutes 0 %d %s", g.now, p))
 		}
 	})
 }
 
 func TestEngine(t *testing.T) {
+	silx.EnableInjection()
 	tr := hx.Open()
 	defer tr.Close()
 	if s := hx.Script(); s != nil {
@@ -217,7 +352,7 @@ func TestEngine(t *testing.T) {
 		return
 	}
 	r := hx.Rand(2)
-	for id := range hx.Cases(2500, 30000) {
+	for id := range hx.Cases(2000, 24000) {
 		runCase(t, tr, id, r, nil)
 	}
 }
